@@ -193,7 +193,7 @@ Proof.
   destruct (st (sk w) =? c_RTR_RESET).
   { apply FR; [exact HI|repeat kstep; try klem|repeat tstep; try tlem4]. }
   destruct (st (sk w) =? c_RTR_SYNC).
-  { eapply hoareE_bind2; [apply rtr_sync_spec, HI|cbv beta; intros w' H; apply H|].
+  { eapply hoareE_bind2; [apply rtr_sync_inv_spec, HI|cbv beta; intros w' H; apply H|].
     cbv beta. intros r w1 (HI1 & _). apply FR; [exact HI1|repeat kstep; try klem|repeat tstep; try tlem4]. }
   destruct (st (sk w) =? c_RTR_ESTABLISHED).
   { apply FR; [exact HI|repeat kstep; try klem; apply wait_for_sync_K|repeat tstep; try tlem4; apply wait_for_sync_T]. }
@@ -221,4 +221,77 @@ Proof.
     - intros [] w1 HKT1. unfold hoareE, do_sleep.
       eapply Inv_KT; [|apply sleep_KT; apply HI]. eapply Inv_KT; [|exact HKT1]. eapply Inv_KT; [exact HI|apply with_out_KT]. }
   apply hoareE_ret. exact HI.
+Qed.
+
+(* ---------- every reachable world satisfies Inv ---------- *)
+Lemma stop_restart_eq' w :
+  stop_restart w = Ok tt (with_sk (with_out (stopped w) (TDump 1 [st (sk (stopped w)); version (sk (stopped w)); session_id (sk (stopped w));
+      if req_sess (sk (stopped w)) then 1 else 0; serial (sk (stopped w)); last_update (sk (stopped w)); refresh_iv (sk (stopped w));
+      expire_iv (sk (stopped w)); retry_iv (sk (stopped w)); if resetting (sk (stopped w)) then 1 else 0; now (stopped w)]
+      (pfx (stopped w)) (keys (stopped w)) :: out (stopped w))) (upd_st (sk (stopped w)) c_RTR_CONNECTING)).
+Proof.
+  unfold stop_restart. rewrite (bind_eq _ _ _ _ _ (rtr_stop_eq' w)). reflexivity.
+Qed.
+
+Lemma Inv_stop_restart w w' : Tm w -> NoDup (pfx w) -> NoDup (keys w) -> stop_restart w = Ok tt w' ->
+  Inv w' /\ last_update (sk w') = 0 /\ no_data w' /\ req_sess (sk w') = true /\ st (sk w') = c_RTR_CONNECTING.
+Proof.
+  intros Ht HP HK. rewrite stop_restart_eq'. intros E; inversion E; subst w'; clear E.
+  destruct (Inv_stopped w Ht HP HK) as [_ HI].
+  pose proof (stopped_facts w) as H. cbv zeta in H. destruct H as (A & B & C & D & _).
+  remember (stopped w) as ws. clear Heqws.
+  split; [|cbn [sk pfx keys with_sk with_out last_update req_sess st upd_st]; auto].
+  eapply Inv_KT; [exact HI|]. eapply KT_trans; [apply with_out_KT|].
+  apply with_sk_KT; cbn [sk with_out last_update retry_iv req_sess resetting upd_st]; auto.
+  rewrite B. discriminate.
+Qed.
+
+Theorem fsm_iter_Inv fuel w : Inv w -> Inv (fst (fsm_iter fuel w)).
+Proof.
+  intros HI. pose proof (fsm_step_Inv fuel w HI) as H. unfold hoareE in H. unfold fsm_iter.
+  destruct (fsm_step fuel w) as [a w'|[why|] w']; cbn [fst]; try exact H.
+  destruct H as (Ht & HP & HK & _).
+  destruct (stop_restart w') as [[] w2|e w2] eqn:Es.
+  - cbn [fst]. eapply Inv_stop_restart; eauto.
+  - rewrite stop_restart_eq' in Es. discriminate.
+Qed.
+
+Theorem run_fsm_Inv n fuel : forall w, Inv w -> Inv (run_fsm n fuel w).
+Proof.
+  induction n as [|n IH]; intros w HI; [exact HI|].
+  rewrite run_fsm_iter. pose proof (fsm_iter_Inv fuel w HI) as H.
+  destruct (fsm_iter fuel w) as [w' [|]]; cbn [fst] in H; [apply IH, H|exact H].
+Qed.
+
+(* the initial world of a run (rtr_init, then the thread sets CONNECTING) *)
+Definition start_world (refresh expire retry mode : Z) (P : list prec) (K0 : list krec) (es : list ev) (os : list bool) (ss : list Z) (o : list titem) : world :=
+  mkW (upd_st (init_sock refresh expire retry mode) c_RTR_CONNECTING) P K0 es os ss 1000 o.
+
+Lemma Inv_start refresh expire retry mode P K0 es os ss o :
+  0 <= retry -> Forall ev_ok es -> NoDup P -> NoDup K0 -> own_p P = [] -> own_k K0 = [] ->
+  Inv (start_world refresh expire retry mode P K0 es os ss o).
+Proof.
+  intros Hr He HP HK Ho1 Ho2. unfold Inv, Tm, env_ok, no_data, start_world, init_sock.
+  cbn [sk pfx keys evs now retry_iv last_update req_sess resetting upd_st]. repeat split; auto; try lia. intros; discriminate.
+Qed.
+
+(* ---------- C07_last_update_tracks: the bookkeeping follows the history ---------- *)
+(* what one iteration may do to last_update *)
+Definition track (w w' : world) : Prop :=
+  (st (sk w) = c_RTR_SYNC /\ st (sk w') = c_RTR_ESTABLISHED /\ last_update (sk w') = now w' /\ req_sess (sk w') = false) \/
+  (~ (st (sk w) = c_RTR_SYNC /\ st (sk w') = c_RTR_ESTABLISHED) /\ last_update (sk w') = last_update (sk w)) \/
+  (st (sk w) <> c_RTR_SYNC /\ last_update (sk w') = 0 /\ last_update (sk w) <> 0).
+
+Definition track_interrupted (w w' : world) : Prop :=
+  last_update (sk w') = last_update (sk w) \/ (st (sk w) <> c_RTR_SYNC /\ last_update (sk w') = 0 /\ last_update (sk w) <> 0).
+
+Lemma track_K w w' : K w w' -> (st (sk w) = c_RTR_SYNC -> st (sk w') <> c_RTR_ESTABLISHED) -> track w w'.
+Proof. intros (_ & _ & HL) Hs. right. left. split; [intros [A B]; exact (Hs A B)|exact HL]. Qed.
+
+(* the expiry check either leaves last_update alone or zeroes a non-zero one *)
+Lemma purge_last w : let w1 := if expired w then purged w else w in
+  last_update (sk w1) = last_update (sk w) \/ (last_update (sk w1) = 0 /\ last_update (sk w) <> 0).
+Proof.
+  cbv zeta. destruct (expired w) eqn:Ex; [right|left; reflexivity].
+  apply expired_iff in Ex. split; [reflexivity|apply Ex].
 Qed.
